@@ -55,6 +55,14 @@ Proof.
 Qed.
 Print Assumptions C14_banner_marks.
 
+(* ... and the original body served to an already framed request keeps the field that says how it is encoded (only the
+   frame page, whose body is ours, loses it) *)
+Theorem C14_framed_original_keeps_encoding : forall h,
+  hvalues "Content-Encoding" (banner_headers FramedOriginal h) = hvalues "Content-Encoding" h /\
+  hvalues "Content-Type" (banner_headers FramedOriginal h) = hvalues "Content-Type" h.
+Proof. intros h. cbn [banner_headers]. split; rewrite !hvalues_hset_other by discriminate; reflexivity. Qed.
+Print Assumptions C14_framed_original_keeps_encoding.
+
 (* the response writer that carries the decision out, on the calls httputil.ReverseProxy makes for one response - any
    number of informational responses (100..199), the final header, the body in any pieces: the wrapped writer (and so
    the client) sees the informational responses, the backend's final status, and then the backend's pieces unchanged,
